@@ -5,7 +5,7 @@ use std::io::Read;
 
 pub fn from_reader(reader: &mut impl Read) -> (Game<String, String>, f64) {
     let mut buff = String::new();
-    reader.read_to_string(&mut buff).unwrap();
+    reader.read_to_string(&mut buff).expect("couldn't read a game definition in any known format; try specifying your format with `--input-format` : https://github.com/erikbrinkman/cfr#auto-error");
     if let Ok(res) = json::from_str(&buff) {
         res
     } else if let Ok(res) = gambit::from_str(&buff) {
